@@ -86,6 +86,8 @@ type c20Case struct {
 	BlockNs   int64  `json:"block_ns"`
 	Channel   bool   `json:"channel"`
 	Cap       bool   `json:"cap"`
+	// other owners that have a registered, usable interchain account on the same connection
+	OtherOwners []string `json:"other_owners,omitempty"`
 }
 
 func genAddr(t *rapid.T, label string) string {
@@ -114,6 +116,14 @@ func genInner(t *rapid.T) sdk.Msg {
 		return &data.MsgAnchor{Sender: genAddr(t, "s"), ContentHash: &data.ContentHash{Graph: &data.ContentHash_Graph{Hash: rapid.SliceOfN(rapid.Byte(), 0, 64).Draw(t, "h"), DigestAlgorithm: rapid.Uint32().Draw(t, "da"), CanonicalizationAlgorithm: 1}}}
 	case 4:
 		return &intertxtypes.MsgRegisterAccount{Owner: genAddr(t, "o"), ConnectionId: txt("c"), Version: txt("v")}
+	case 6:
+		// a nested MsgSubmitTx naming ANOTHER owner (nobody signed for that owner)
+		victim := genAddr(t, "victim")
+		in, err := codectypes.NewAnyWithValue(&banktypes.MsgSend{FromAddress: victim, ToAddress: genAddr(t, "thief"), Amount: sdk.Coins{sdk.NewInt64Coin("uregen", 1)}})
+		if err != nil {
+			return &banktypes.MsgSend{}
+		}
+		return &intertxtypes.MsgSubmitTx{Owner: victim, ConnectionId: rapid.SampledFrom([]string{"connection-0", "connection-1", "connection-12", "c"}).Draw(t, "nestedconn"), Msg: in}
 	case 5:
 		return &baskettypes.MsgTake{Owner: genAddr(t, "o"), BasketDenom: txt("b"), Amount: txt("a"), RetireOnTake: rapid.Bool().Draw(t, "rt"), RetirementJurisdiction: txt("j")}
 	}
@@ -176,6 +186,15 @@ func checkC20Step(k keeper.Keeper, ica *fakeICA, caps *fakeCap, c c20Case) error
 	capPath := "capabilities/ports/" + port + "/channels/" + channel
 	if c.Cap {
 		caps.caps[capPath] = theCap
+	}
+	for i, o := range c.OtherOwners {
+		op := "icacontroller-" + o
+		if op == port {
+			continue
+		}
+		ch := fmt.Sprintf("channel-%d", 20+i)
+		ica.channels[c.Conn+"|"+op] = ch
+		caps.caps["capabilities/ports/"+op+"/channels/"+ch] = captypes.NewCapability(uint64(200 + i))
 	}
 	caps.caps["capabilities/ports/"+port+"x/channels/channel-98"] = captypes.NewCapability(98)
 	caps.caps["capabilities/ports/"+port+"/channels/channel-99"] = captypes.NewCapability(99)
@@ -258,6 +277,15 @@ func TestC20(t *testing.T) {
 			Owner: genAddr(t, "owner"), Conn: rapid.SampledFrom([]string{"connection-0", "connection-1", "connection-12", "c", "connection-0|x"}).Draw(t, "conn"),
 			InnerType: any.TypeUrl, InnerBin: bin, BlockNs: rapid.Int64Range(1, 4e18).Draw(t, "blocktime"),
 			Channel: rapid.IntRange(0, 3).Draw(t, "chan") > 0, Cap: rapid.IntRange(0, 3).Draw(t, "cap") > 0,
+		}
+		if n, ok := inner.(*intertxtypes.MsgSubmitTx); ok {
+			c.OtherOwners = append(c.OtherOwners, n.Owner)
+			if rapid.Bool().Draw(t, "sameconn") {
+				c.Conn = n.ConnectionId
+			}
+		}
+		if rapid.IntRange(0, 3).Draw(t, "others") == 0 {
+			c.OtherOwners = append(c.OtherOwners, genAddr(t, "otherowner"))
 		}
 		if rapid.IntRange(0, 9).Draw(t, "upper") == 0 {
 			c.Owner = upper(c.Owner)
